@@ -1,6 +1,10 @@
 package sym
 
-import "gosym/term"
+import (
+	"go/types"
+
+	"gosym/term"
+)
 
 func init() {
 	// Random sources: distinct, increasing values (stated assumption: id generators do not collide).
@@ -48,4 +52,224 @@ func init() {
 	reg("syscall.Getrusage", func(fr *frame, args []Value) Value { return Iface{} })
 	reg("os.Getpid", func(fr *frame, args []Value) Value { return tInt(4242) })
 	reg("runtime.ReadMemStats", func(fr *frame, args []Value) Value { return nil })
+}
+
+// reflect.DeepEqual over interpreter values (kmsg uses it to detect default-valued tagged
+// structs). Scalars compare as terms, containers structurally; maps, channels and functions with
+// symbolic content are outside the model.
+func (fr *frame) deepEqual(a, b Value, depth int) *term.Term {
+	if depth > 40 {
+		fr.m.unsupported("reflect.DeepEqual: nesting too deep")
+	}
+	switch x := a.(type) {
+	case nil:
+		return term.Bool(b == nil)
+	case *term.Term:
+		y, ok := b.(*term.Term)
+		if !ok || y.W != x.W {
+			return term.False
+		}
+		return term.Eq(x, y)
+	case string, SymStr:
+		switch b.(type) {
+		case string, SymStr:
+			return strEq(a, b)
+		}
+		return term.False
+	case float64:
+		y, ok := b.(float64)
+		return term.Bool(ok && x == y)
+	case Struct:
+		y, ok := b.(Struct)
+		if !ok || len(x) != len(y) {
+			return term.False
+		}
+		r := term.True
+		for i := range x {
+			r = term.And(r, fr.deepEqual(x[i], y[i], depth+1))
+		}
+		return r
+	case Array:
+		y, ok := b.(Array)
+		if !ok || len(x) != len(y) {
+			return term.False
+		}
+		r := term.True
+		for i := range x {
+			r = term.And(r, fr.deepEqual(x[i], y[i], depth+1))
+		}
+		return r
+	case []Value:
+		y, ok := b.([]Value)
+		if !ok || len(x) != len(y) || (x == nil) != (y == nil) {
+			return term.False
+		}
+		r := term.True
+		for i := range x {
+			r = term.And(r, fr.deepEqual(x[i], y[i], depth+1))
+		}
+		return r
+	case *Value:
+		y, ok := b.(*Value)
+		if !ok {
+			return term.False
+		}
+		if x == nil || y == nil {
+			return term.Bool(x == y)
+		}
+		if x == y {
+			return term.True
+		}
+		return fr.deepEqual(*x, *y, depth+1)
+	case Iface:
+		y, ok := b.(Iface)
+		if !ok {
+			return term.False
+		}
+		if x.T == nil || y.T == nil {
+			return term.Bool(x.T == nil && y.T == nil)
+		}
+		if !types.Identical(x.T, y.T) {
+			return term.False
+		}
+		return fr.deepEqual(x.V, y.V, depth+1)
+	case *Map:
+		y, ok := b.(*Map)
+		if !ok {
+			return term.False
+		}
+		if x == nil || y == nil || x.n == 0 || y.n == 0 {
+			xn, yn := x == nil, y == nil
+			xe, ye := x == nil || x.n == 0, y == nil || y.n == 0
+			return term.Bool(xn == yn && xe == ye)
+		}
+	}
+	fr.m.unsupported("reflect.DeepEqual on %T", a)
+	return nil
+}
+
+func init() {
+	reg("reflect.DeepEqual", func(fr *frame, args []Value) Value {
+		return fr.deepEqual(args[0], args[1], 0)
+	})
+}
+
+// deepCopy duplicates a value together with everything reachable from it (fresh cells, slices
+// and maps), as a serialise/deserialise round trip or proto.Clone would.
+func (m *Machine) deepCopy(v Value, depth int) Value {
+	if depth > 60 {
+		m.unsupported("deep copy: nesting too deep")
+	}
+	switch x := v.(type) {
+	case Struct:
+		c := make(Struct, len(x))
+		for i := range x {
+			c[i] = m.deepCopy(x[i], depth+1)
+		}
+		return c
+	case Array:
+		c := make(Array, len(x))
+		for i := range x {
+			c[i] = m.deepCopy(x[i], depth+1)
+		}
+		return c
+	case []Value:
+		if x == nil {
+			return x
+		}
+		c := make([]Value, len(x))
+		for i := range x {
+			c[i] = m.deepCopy(x[i], depth+1)
+		}
+		return c
+	case *Value:
+		if x == nil {
+			return x
+		}
+		cell := m.deepCopy(*x, depth+1)
+		return &cell
+	case Iface:
+		return Iface{T: x.T, V: m.deepCopy(x.V, depth+1)}
+	case *Map:
+		if x == nil {
+			return x
+		}
+		c := &Map{index: map[string]int{}}
+		for _, e := range x.entries {
+			if e.deleted {
+				continue
+			}
+			c.entries = append(c.entries, &mapEntry{k: m.deepCopy(e.k, depth+1), v: m.deepCopy(e.v, depth+1)})
+			if ck, ok := canonKey(e.k); ok {
+				c.index[ck] = len(c.entries) - 1
+			}
+			c.n++
+		}
+		return c
+	}
+	return v
+}
+
+// Abstract codecs (DESIGN §3.5): Marshal returns an opaque blob that carries a deep copy of the
+// value; Unmarshal of such a blob into a destination of the same type stores a deep copy of it.
+// Anything else (foreign bytes, different type) is outside the model and fails loud.
+func (m *Machine) encodeBlob(kind string, v Value) Value {
+	tok := m.newToken(kind, m.deepCopy(v, 0))
+	return byteSlice([]byte(tok))
+}
+
+func (m *Machine) decodeBlob(kind string, data Value, dst Value) Value {
+	bs, ok := allConst(bytesOf(data))
+	if !ok {
+		m.unsupported("%s decode of symbolic bytes", kind)
+	}
+	k, pay, ok := m.tokenPayload(string(bs))
+	if !ok || k != kind {
+		m.unsupported("%s decode of bytes that were not produced by the matching encoder in this run", kind)
+	}
+	src, ok1 := pay.(Iface)
+	dsti, ok2 := dst.(Iface)
+	if !ok1 || !ok2 || src.T == nil || dsti.T == nil {
+		m.unsupported("%s decode: unsupported source/destination shape (%T into %T)", kind, pay, dst)
+	}
+	dptr, isPtr := dsti.T.Underlying().(*types.Pointer)
+	d, okd := dsti.V.(*Value)
+	if !isPtr || !okd || d == nil {
+		m.unsupported("%s decode: destination is not a pointer", kind)
+	}
+	if types.Identical(src.T, dsti.T) {
+		sp, _ := src.V.(*Value)
+		if sp == nil {
+			m.unsupported("%s decode: nil source", kind)
+		}
+		m.store(d, m.deepCopy(*sp, 0))
+		return Iface{}
+	}
+	if types.Identical(src.T, dptr.Elem()) {
+		m.store(d, m.deepCopy(src.V, 0))
+		return Iface{}
+	}
+	m.unsupported("%s decode: value of type %s decoded into %s (only same-type round trips are modelled)", kind, typeStr(src.T), typeStr(dsti.T))
+	return Iface{}
+}
+
+func init() {
+	reg("google.golang.org/protobuf/proto.Clone", func(fr *frame, args []Value) Value {
+		in := args[0].(Iface)
+		return Iface{T: in.T, V: fr.m.deepCopy(in.V, 0)}
+	})
+	reg("google.golang.org/protobuf/proto.Marshal", func(fr *frame, args []Value) Value {
+		fr.m.StubsHit["codec:proto"]++
+		return Tuple{fr.m.encodeBlob("proto", args[0]), Iface{}}
+	})
+	reg("google.golang.org/protobuf/proto.Unmarshal", func(fr *frame, args []Value) Value {
+		return fr.m.decodeBlob("proto", args[0], args[1])
+	})
+	reg("encoding/json.Marshal", func(fr *frame, args []Value) Value {
+		fr.m.StubsHit["codec:json"]++
+		return Tuple{fr.m.encodeBlob("json", args[0]), Iface{}}
+	})
+	reg("encoding/json.Unmarshal", func(fr *frame, args []Value) Value {
+		return fr.m.decodeBlob("json", args[0], args[1])
+	})
 }
